@@ -48,7 +48,9 @@ P07(cf, op, call, xs, ret) ==
                           THEN {} ELSE {"P07-wrong-receipt"})
                          \cup (IF ~ret.ok /\ ret.err.class = "UnknownToken" THEN {"P07-open-token-refused"} ELSE {}),
                open |-> Without(op, call.tok)]
-    [] call.op \in {"configure", "new"} -> [flags |-> {}, open |-> Empty]
+    \* configure (and end of day in general) wipes the map at the moment it asks for pending pre-authorisations
+    [] call.op \in {"configure", "new"} ->
+         [flags |-> {}, open |-> IF \E k \in 1..Len(xs) : IsPendingQuery(xs[k]) THEN Empty ELSE op]
     [] OTHER -> [flags |-> {}, open |-> op]
 
 \* ---- C08: amounts, currency, receipt, reference; the summary
